@@ -53,7 +53,7 @@ def cases(tier, seed):
     allops = hist_array.ALPHABET + hist_array.EXTRA + ['recreate', 'recreate_fill', 'md_set']
     for k in range(n):
         nt, bo = COMBOS[k % len(COMBOS)]
-        start = rng.choice(hist_array.STARTS + [(1,), (4, 3), (0, 2, 1, 2), (2, 3, 1, 2)])
+        start = rng.choice(hist_array.STARTS + [(1,), (4, 3), (0, 2, 1, 2), (2, 3, 1, 2), (11,), (10, 2), (100,)])
         length = rng.randint(2, 12) if k % 10 else rng.randint(30, 80)
         yield {'kind': 'history', 'start': {'shape': list(start), 'numtype': nt, 'bo': bo,
                                            'chunklen': rng.choice([1, 2, 3, 100])},
